@@ -777,3 +777,14 @@ func vrtKeyKind(pub interface{}) int {
 	}
 	return 2
 }
+
+// vrtC18Reply: every reply is exactly one document made by a library encoder
+// (encoding/xml, encoding/json, html/template, pem, http.Error, http.Redirect)
+// - never text assembled by the module - and a protocol message in it decodes
+// with the library's own decoder.
+func vrtC18Reply(rp vrtReply, carriesMessage, decoded bool) {
+	vrtAssert("C18.reply-is-one-encoder-made-document", rp.Kind != "other" && rp.Kind != "empty" && rp.Docs+rp.Forms <= 1)
+	if carriesMessage {
+		vrtAssert("C18.emitted-message-decodes-with-the-librarys-decoder", decoded)
+	}
+}
